@@ -2287,6 +2287,10 @@ func (ctx Ctx) funcDecl(d *ast.FuncDecl) coq.FuncDecl {
 	addSourceDoc(d.Doc, &fd.Comment)
 	ctx.addSourceFile(d, &fd.Comment)
 
+	if d.Recv == nil && d.Name.Name == "init" {
+		// Go runs it before main; nothing calls the emitted definition
+		ctx.unsupported(d, "init function")
+	}
 	if d.Recv != nil {
 		if len(d.Recv.List) != 1 {
 			ctx.nope(d, "function with multiple receivers")
